@@ -37,6 +37,8 @@ pub struct Cfg {
     pub bad_routers: Vec<String>,
     /// contact 0 names one (silent) address under two different node ids, and itself under a second id
     pub twin_ids: bool,
+    /// waiters (call instant, cancelled after ms) whose future is dropped while still pending
+    pub cancelled_waiters: Vec<(u64, u64)>,
     /// instants at which bootstrapped() is called
     pub waiters: Vec<u64>,
     pub horizon_ms: u64,
@@ -110,6 +112,9 @@ pub fn build(cfg: &Cfg) -> (Scenario, Vec<Box<dyn Peer>>) {
     });
     for (k, t) in cfg.waiters.iter().enumerate() {
         sc.actions.push((When::At(*t), Action::Bootstrapped { node: 0, tag: format!("w{k}") }));
+    }
+    for (k, (t, after)) in cfg.cancelled_waiters.iter().enumerate() {
+        sc.actions.push((When::At(*t), Action::BootstrappedCancel { node: 0, tag: format!("cw{k}"), cancel_after_ms: *after }));
     }
     sc.actions.push((When::At(cfg.horizon_ms - 20), Action::GetState { node: 0, tag: "final-state".into() }));
     sc.actions.push((When::At(cfg.horizon_ms - 20), Action::LocalAddr { node: 0, tag: "final-addr".into() }));
@@ -238,7 +243,7 @@ fn beh_parse(v: &Value) -> Beh {
     }
 }
 fn cfg_json(c: &Cfg) -> Value {
-    json!({"v6":c.v6,"read_only":c.read_only,"contacts":c.contacts.iter().map(beh_json).collect::<Vec<_>>(),"nodes":c.nodes,"routers":c.routers,"bad_routers":c.bad_routers,"twin_ids":c.twin_ids,"waiters":c.waiters,"horizon_ms":c.horizon_ms,"latency":c.latency,"rng_seed":c.rng_seed})
+    json!({"v6":c.v6,"read_only":c.read_only,"contacts":c.contacts.iter().map(beh_json).collect::<Vec<_>>(),"nodes":c.nodes,"routers":c.routers,"bad_routers":c.bad_routers,"twin_ids":c.twin_ids,"cancelled_waiters":c.cancelled_waiters.iter().map(|(a,b)| json!([a,b])).collect::<Vec<_>>(),"waiters":c.waiters,"horizon_ms":c.horizon_ms,"latency":c.latency,"rng_seed":c.rng_seed})
 }
 fn cfg_parse(v: &Value) -> Cfg {
     let us = |k: &str| -> Vec<usize> { v[k].as_array().map(|a| a.iter().map(|x| x.as_u64().unwrap() as usize).collect()).unwrap_or_default() };
@@ -249,6 +254,7 @@ fn cfg_parse(v: &Value) -> Cfg {
         nodes: us("nodes"),
         routers: us("routers"),
         twin_ids: v["twin_ids"].as_bool().unwrap_or(false),
+        cancelled_waiters: v["cancelled_waiters"].as_array().map(|a| a.iter().map(|x| (x[0].as_u64().unwrap(), x[1].as_u64().unwrap())).collect()).unwrap_or_default(),
         bad_routers: v["bad_routers"].as_array().map(|a| a.iter().map(|x| x.as_str().unwrap().to_string()).collect()).unwrap_or_default(),
         waiters: v["waiters"].as_array().map(|a| a.iter().map(|x| x.as_u64().unwrap()).collect()).unwrap_or_default(),
         horizon_ms: v["horizon_ms"].as_u64().unwrap_or(60_000),
@@ -283,7 +289,7 @@ pub fn replay(v: &Value) -> i32 {
 
 pub fn configs(tier: Tier, seed: u64) -> Vec<Cfg> {
     let mut out = vec![];
-    let base = |contacts: Vec<Beh>, nodes: Vec<usize>, routers: Vec<usize>, waiters: Vec<u64>, horizon: u64| Cfg { v6: false, read_only: true, contacts, nodes, routers, bad_routers: vec![], twin_ids: false, waiters, horizon_ms: horizon, latency: 20, rng_seed: seed };
+    let base = |contacts: Vec<Beh>, nodes: Vec<usize>, routers: Vec<usize>, waiters: Vec<u64>, horizon: u64| Cfg { v6: false, read_only: true, contacts, nodes, routers, bad_routers: vec![], twin_ids: false, cancelled_waiters: vec![], waiters, horizon_ms: horizon, latency: 20, rng_seed: seed };
     // no contacts at all
     for ro in [true, false] {
         for v6 in [false, true] {
@@ -360,6 +366,17 @@ pub fn configs(tier: Tier, seed: u64) -> Vec<Cfg> {
         c.bad_routers = bad;
         out.push(c);
     }
+    // waiters that give up (their future is dropped) while others keep waiting, in every order
+    for (cancels, waiters) in [
+        (vec![(100u64, 50u64)], vec![0u64, 200, 300, 400]),
+        (vec![(0, 150), (100, 30)], vec![50, 120, 200, 260, 1_000]),
+        (vec![(10, 5), (20, 5), (30, 500)], vec![0, 15, 25, 40, 600]),
+        (vec![(300, 100)], vec![100, 200, 450, 460, 470]),
+    ] {
+        let mut c = base(vec![Beh::ResponsiveFrom(5_000)], vec![0], vec![], waiters, 60_000);
+        c.cancelled_waiters = cancels;
+        out.push(c);
+    }
     // a contact whose answers list one address under two node ids (and itself under a second id)
     for v6 in [false, true] {
         for n in [1usize, 3] {
@@ -400,8 +417,8 @@ pub fn run(tier: Tier) -> Report {
     let fs = fates();
     let mut levels = vec![];
     let picks: Vec<Cfg> = vec![
-        Cfg { v6: false, read_only: true, contacts: vec![Beh::Responsive], nodes: vec![0], routers: vec![], bad_routers: vec![], twin_ids: false, waiters: vec![0, 2_000], horizon_ms: 700_000, latency: 20, rng_seed: seed },
-        Cfg { v6: false, read_only: true, contacts: vec![Beh::Responsive, Beh::Silent, Beh::Responsive], nodes: vec![0, 1, 2], routers: vec![], bad_routers: vec![], twin_ids: false, waiters: vec![0], horizon_ms: 700_000, latency: 20, rng_seed: seed },
+        Cfg { v6: false, read_only: true, contacts: vec![Beh::Responsive], nodes: vec![0], routers: vec![], bad_routers: vec![], twin_ids: false, cancelled_waiters: vec![], waiters: vec![0, 2_000], horizon_ms: 700_000, latency: 20, rng_seed: seed },
+        Cfg { v6: false, read_only: true, contacts: vec![Beh::Responsive, Beh::Silent, Beh::Responsive], nodes: vec![0, 1, 2], routers: vec![], bad_routers: vec![], twin_ids: false, cancelled_waiters: vec![], waiters: vec![0], horizon_ms: 700_000, latency: 20, rng_seed: seed },
     ];
     for cfg in picks.iter().take(tier.pick(2, 2)) {
         let run_one = |prefix: &[usize]| -> RunOutcome {
